@@ -3,7 +3,11 @@
 import json, glob
 print("| seed | breaks | what the change is | needs to manifest | reported by (quick tier) | signature of the own-property check |")
 print("|---|---|---|---|---|---|")
-for f in sorted(glob.glob('/verif/seeded/*/meta.json')):
+def key(f):
+    import re
+    m = re.search(r'/(C\d+)-(\d+)/', f)
+    return (m.group(1), int(m.group(2)))
+for f in sorted(glob.glob('/verif/seeded/*/meta.json'), key=key):
     d = json.load(open(f))
     m = d.get('meta', {})
     own = d['seed'].split('-')[0]
@@ -14,4 +18,4 @@ for f in sorted(glob.glob('/verif/seeded/*/meta.json')):
     def cut(s, n):
         s = ' '.join(str(s).split())
         return s if len(s) <= n else s[:n-1] + '…'
-    print(f"| {d['seed']} | {own} | {cut(m.get('summary',''), 170)} | {cut(m.get('needs_to_manifest',''), 150)} | {', '.join(d.get('caught_by') or []) or '—'} | {sig} |")
+    print(f"| {d['seed']} | {own} | {cut(m.get('summary',''), 140)} | {cut(m.get('needs_to_manifest',''), 110)} | {', '.join(d.get('caught_by') or []) or '—'} | {sig} |")
